@@ -46,7 +46,12 @@ CONFIG = {
                    'injector drops references and forces collections at '
                    'statement boundaries inside the unique-table code; every '
                    'node creation is checked online and the live heap is '
-                   'audited at quiescent points.'),
+                   'audited at quiescent points.'
+                   ' Also: wide histories (5-6 variables, pool of 160), long'
+                   ' histories, and targeted id-reuse rounds (use an operand, age'
+                   ' the caches, drop it, allocate a different node at the freed'
+                   ' address); every pool entry carries the truth table it is'
+                   ' meant to denote.'),
     'level_note': ('Trusted base: the shadow table and census in '
                    'vmon/props/c16.py, refbool walker, CPython weakref/gc '
                    'semantics. A finite sample of histories and injection '
